@@ -166,7 +166,11 @@ func windowCases(r *mon.Run) {
 		// stream and after all I/O
 		doSeq := -1
 		evs := w.Log.Snapshot()
+		released := map[int]bool{}
 		for _, e := range evs {
+			if e.Kind == "hook" && e.S == "release" && doSeq < 0 {
+				released[e.Att] = true
+			}
 			if e.Kind == "do-ret" {
 				doSeq = e.Seq
 				continue
@@ -179,6 +183,9 @@ func windowCases(r *mon.Run) {
 				viol("do-returned-with-stream-attached", fmt.Sprintf("Do returned (event #%d) while attempt %d's %s stream was still attached: it ended only at event #%d", doSeq, e.Att, e.Dir, e.Seq))
 			case e.Kind == "slog" && e.S == "New connection":
 				viol("do-returned-with-stream-attached", fmt.Sprintf("attempt %d was attached (event #%d) after Do had returned (event #%d)", e.Att, e.Seq, doSeq))
+			case e.Kind == "r" && released[e.Att]:
+				// a Read the stream's reader was already blocked in when the stream was
+				// ended returns later, with whatever the harness pushes: not the broker reading
 			case e.Kind == "w" || e.Kind == "r" && e.N > 0:
 				viol("io-after-shutdown", fmt.Sprintf("I/O event %s after Do returned", e))
 			}
